@@ -257,6 +257,16 @@ class _Triggering(set):
     __hash__ = None
 
 
+def _unknown_to(selector, value):
+    """Whether the value (or, for a list value, one of its items) is not among the Selector's objects yet."""
+    try:
+        objects = list(selector.objects)
+        items = value if isinstance(value, list) else [value]
+        return any(not any(o is v or o == v for o in objects) for v in items)
+    except Exception:
+        return True
+
+
 class _PartiallyInitialized(RuntimeError):
     """A watcher was (un)registered on an object whose construction or restoration is not finished."""
 
@@ -2306,7 +2316,8 @@ class Parameters:
             pobj = objects.get(name)
             if (not getattr(pobj, 'check_on_set', True) and pobj.per_instance
                     and not getattr(self_.cls._param__private, 'disable_instance_params', False)
-                    and name not in self._param__private.params):
+                    and name not in self._param__private.params
+                    and _unknown_to(pobj, val)):
                 # a Selector that adds unknown values to its objects: to those
                 # of this instance's own Parameter object, not to the class's
                 self._param__private.params[name] = _instantiate_param_obj(pobj, self)
